@@ -1,6 +1,7 @@
 package main
 
 import (
+	"runtime"
 	"encoding/json"
 	"encoding/hex"
 	"fmt"
@@ -39,9 +40,24 @@ func (iv *c17Inv) keys() []int {
 	return ks
 }
 
+// curGoid: the id of the calling goroutine (from the first line of its stack trace, as the library reads it)
+func curGoid() int64 {
+	buf := make([]byte, 64)
+	buf = buf[:runtime.Stack(buf, false)]
+	f := strings.Fields(string(buf))
+	if len(f) < 2 {
+		return -1
+	}
+	n, err := strconv.ParseInt(f[1], 10, 64)
+	if err != nil {
+		return -1
+	}
+	return n
+}
+
 func genC17(c *Ctx) error {
 	c.ShardSize = 150
-	c.Notes["rule"] = "one token chaincode instance; 2-3 invocations, each on its own goroutine with its own simulated transaction: an immediate method (also behind an argument whose decoding is a switch point of its own), a query with the same body (it reports in whose transaction it finds itself at every step), batchExecute with one or two pending transactions, executeTasks with one or two tasks, swapDone whose completion listener runs with the context swapDone installed; every body re-obtains its context (GetStub) 1-3 times, reads its own previous write and writes a key, and is parked before each of these points; a scheduler releases the parked invocations in a random order (all interleavings of the switch points are reachable, nested and overlapping lifetimes). Observed per invocation: status, payload, complete write-set, event - compared with the same proposal run alone over the same committed state - and the keys that landed in its write-set. One case in three also has an invocation that panics inside its method while others are parked. Half of the instances have served a few refused requests (failing method, undecodable argument, failing task) before. Non-trivial: the lifetimes of at least two invocations overlap."
+	c.Notes["rule"] = "one token chaincode instance; 2-3 invocations, each on its own goroutine with its own simulated transaction: an immediate method (also behind an argument whose decoding is a switch point of its own), a query with the same body (it reports in whose transaction it finds itself at every step), batchExecute with one or two pending transactions, executeTasks with one or two tasks, swapDone whose completion listener runs with the context swapDone installed; every body re-obtains its context (GetStub) 1-3 times, reads its own previous write and writes a key, and is parked before each of these points; a scheduler releases the parked invocations in a random order (all interleavings of the switch points are reachable, nested and overlapping lifetimes). Observed per invocation: status, payload, complete write-set, event - compared with the same proposal run alone over the same committed state - and the keys that landed in its write-set. In half of the cases a newly started invocation runs on a goroutine whose id shares its low 12 bits with a parked one's. One case in three also has an invocation that panics inside its method while others are parked. Half of the instances have served a few refused requests (failing method, undecodable argument, failing task) before. Non-trivial: the lifetimes of at least two invocations overlap."
 	n := c.N(150, 3000)
 	for i := 0; i < n; i++ {
 		if i == n/2 {
@@ -433,6 +449,11 @@ func c17Case(c *Ctx) error {
 		}
 	}
 	overlap := 0
+	collide := rng.Intn(2) == 0
+	goids := make([]int64, len(invs))
+	for j := range goids {
+		goids[j] = -1
+	}
 	boom := rng.Intn(3) == 0
 	for {
 		var cand []int
@@ -463,10 +484,37 @@ func c17Case(c *Ctx) error {
 		}
 		if state[i] == 0 {
 			iv := invs[i]
-			go func(i int) {
-				res, _ := w.Peer.Simulate("tt", iv.txID, iv.creator, false, iv.args)
-				done <- doneMsg{i, res}
-			}(i)
+			// in half of the cases a new invocation runs on a goroutine whose id has the same low 12 bits as the id of one
+			// that is parked right now (goroutines are started and dropped until such an id comes up): two ids are two
+			// invocations, however alike they look
+			want := int64(-1)
+			if collide {
+				for j := range invs {
+					if state[j] == 1 && goids[j] >= 0 {
+						want = goids[j]
+					}
+				}
+			}
+			for {
+				okc := make(chan bool)
+				go func(i int) {
+					g := curGoid()
+					if want >= 0 && g%4096 != want%4096 {
+						okc <- false
+						return
+					}
+					goids[i] = g
+					okc <- true
+					res, _ := w.Peer.Simulate("tt", iv.txID, iv.creator, false, iv.args)
+					done <- doneMsg{i, res}
+				}(i)
+				if <-okc {
+					break
+				}
+			}
+			if want >= 0 {
+				c.Count("invocation_on_a_goroutine_with_the_low_id_bits_of_a_parked_one")
+			}
 			schedule = append(schedule, strconv.Itoa(i)) // ISet (runs up to the first switch point)
 			settle(i)
 			continue
